@@ -382,6 +382,19 @@ pub fn gen110(tier: &str, r: &mut Rng, emit: &mut dyn FnMut(Vec<u64>)) {
         let mut c = q.clone(); c.b1 = Some(bv(1, false, szx)); c.payload = vec![3; 5]; c.mid = 3; steps.push(Step::Ex(0, c.desc(), 7, Reply { code: 0x44, ..Default::default() }));
         emit(write_case(1152, 0, &steps));
     } }
+    // directed: payloads longer than the declared block size, jump lengths around 16 KiB (+ the payload length)
+    for (n1, s1, pl) in [(100u64, 2u8, 1100usize), (3, 0, 700), (0, 6, 1200)] {
+        let buflen1 = n1 * (16u64 << s1) + pl as u64;
+        for d in -40i64..1300 {
+            let off2 = buflen1 as i64 + 16384 + d - 16;
+            if off2 % 16 != 0 || off2 / 16 > 65535 { continue; }
+            let mut q = ReqSpec::get(&["a"]); q.code = 3;
+            let mut a = q.clone(); a.b1 = Some(bv(n1, true, s1)); a.payload = vec![1; pl];
+            let mut b = q.clone(); b.b1 = Some(bv((off2 / 16) as u64, true, 0)); b.payload = vec![2; pl]; b.mid = 2;
+            let mut c = q.clone(); c.b1 = Some(bv(0, false, 0)); c.payload = vec![3; 5]; c.mid = 3;
+            emit(write_case(1152, 0, &[Step::Ex(0, a.desc(), 7, Reply::default()), Step::Ex(0, b.desc(), 7, Reply::default()), Step::Ex(0, c.desc(), 7, Reply { code: 0x44, ..Default::default() })]));
+        }
+    }
     // directed: budgets around the request's overhead (division by the negotiated size)
     for d in 0..40u64 { for with_b1 in [false, true] {
         let mut q = ReqSpec::get(&["a"]); q.code = 3; q.payload = vec![9; 30];
@@ -446,9 +459,9 @@ pub fn gen120(tier: &str, r: &mut Rng, emit: &mut dyn FnMut(Vec<u64>)) {
 pub fn gen200(tier: &str, r: &mut Rng, emit: &mut dyn FnMut(Vec<u64>)) {
     let thorough = tier == "thorough";
     let other = |i: u64| -> Step { let mut q = ReqSpec::get(&["other"]); q.mid = i as u16; q.token = vec![(i % 251) as u8];
-        Step::Ex(50 + i, q.desc(), 100 + i % 40, Reply { code: 0x45, opts: vec![], body: vec![1, 2, 3] }) };
+        Step::Ex(50 + i, q.desc(), 100 + i, Reply { code: 0x45, opts: vec![], body: vec![1, 2, 3] }) };
     // retention: expiry of one hour, 1..2000 intervening requests on other keys
-    for &n in (if thorough { &[1u64, 2, 10, 100, 500, 2000][..] } else { &[1u64, 7, 150][..] }) { for kind in 0..2 {
+    for &n in (if thorough { &[1u64, 2, 10, 100, 500, 1023, 1024, 2000][..] } else { &[1u64, 7, 150, 1100, 2000][..] }) { for kind in 0..2 {
         let mut steps = Vec::new();
         let mut q = ReqSpec::get(&["keep"]);
         if kind == 0 {
